@@ -298,6 +298,114 @@ theorem resubmission_charged_once (s : Tower) (node : Node) (signer : Option Use
   simp only at h2
   rw [h2.1]
 
+theorem abort_mem (s : Tower) (site : String) : (s.abort site).mem = s.mem := by
+  unfold Tower.abort; split <;> rfl
+
+theorem abort_db (s : Tower) (site : String) : (s.abort site).db = s.db := by
+  unfold Tower.abort; split <;> rfl
+
+theorem storeAppointment_mem (s : Tower) (k : Uuid) (a : Appt) : (storeAppointment s k a).mem = s.mem := by
+  unfold storeAppointment
+  split
+  · split
+    · rfl
+    · exact abort_mem _ _
+  · split
+    · rfl
+    · exact abort_mem _ _
+
+/-- **double_submit_charged_once** (two whole operations in sequence, from any state of the tower
+invariant): when a submission is accepted (its locator not in the cache) and the very same
+submission is served again right after it — the order the cache lock forces on two concurrent
+identical submissions — the second is accepted too and reports the balance the first one left:
+the pair is charged once. -/
+theorem double_submit_charged_once (s : Tower) (node : Node) (signer : Option User) (loc : Loc)
+    (blob : Blob) (tsd usig : Nat) (st sg av e : Nat) (hinv : TInv s)
+    (h : (addAppointment s node signer loc blob tsd usig).2.1 = .accepted st sg av e)
+    (hc : s.mem.cache.get loc = none) :
+    (addAppointment (addAppointment s node signer loc blob tsd usig).1 node signer loc blob tsd usig).2.1 =
+      .accepted st usig av e := by
+  have hinv' := tinv_addAppointment s node signer loc blob tsd usig hinv
+  obtain ⟨u, a, hsg, hrow, hblob, -⟩ := C08.receipt_only_if_taken_stored s node signer loc blob tsd usig st sg av e h hc
+    hinv'.alive hinv.alive
+  subst hsg
+  -- take the first operation apart
+  generalize hs' : (addAppointment s node (some u) loc blob tsd usig).1 = s' at hrow hinv' ⊢
+  unfold addAppointment at h hs'
+  cases ha : authCheck s (some u) with
+  | error r =>
+    exfalso
+    simp only [ha] at h
+    unfold authCheck at ha
+    cases hu : s.mem.users u with
+    | none => simp [hu] at ha; subst ha; simp at h
+    | some vi =>
+      simp only [hu] at ha
+      by_cases he : Gen.subscriptionExpired s.mem.gkHeight vi.expiry = true
+      · simp [he] at ha; subst ha; simp at h
+      · simp [he] at ha
+  | ok p =>
+    obtain ⟨u', ui⟩ := p
+    have hu := authCheck_ok_mem s (some u) u' ui ha
+    have huu : u' = u := by
+      unfold authCheck at ha
+      simp only at ha
+      split at ha
+      · cases ha
+      · split at ha
+        · cases ha
+        · simp only [Except.ok.injEq, Prod.mk.injEq] at ha; exact ha.1.symm
+    subst huu
+    have hnexp : Gen.subscriptionExpired s.mem.gkHeight ui.expiry = false := by
+      unfold authCheck at ha
+      simp only [hu] at ha
+      by_cases he : Gen.subscriptionExpired s.mem.gkHeight ui.expiry = true
+      · simp [he] at ha
+      · simpa using he
+    simp only [ha] at h hs'
+    by_cases htr : (s.db.trackers (loc, u')).isSome = true
+    · simp [htr] at h
+    · simp only [htr, Bool.false_eq_true, ↓reduceIte] at h hs'
+      cases hch : addUpdateAppointment s u' (loc, u') blob.len with
+      | mk s1 o =>
+        have hsh := shrink_addUpdateAppointment s u' (loc, u') blob.len
+        rw [hch] at hsh
+        cases o with
+        | none => simp [hch] at h
+        | some avail =>
+          have hc1 : s1.mem.cache.get loc = none := by
+            have := hsh.cache
+            simp only at this
+            rw [this]; exact hc
+          simp only [hch, hc1] at h hs'
+          simp only [Reply.accepted.injEq] at h
+          obtain ⟨h1, h2, h3, h4⟩ := h
+          -- what the charge did
+          have hch' := hch
+          unfold addUpdateAppointment at hch'
+          simp only [hu] at hch'
+          split at hch'
+          · simp only [Prod.mk.injEq, Option.some.injEq] at hch'
+            obtain ⟨hs1, hav⟩ := hch'
+            have hmem : s'.mem = s1.mem := by rw [← hs']; exact storeAppointment_mem _ _ _
+            have hu1 : s'.mem.users u' = some { ui with slots := avail } := by
+              rw [hmem, ← hs1, ← hav]; simp
+            have hgk : s'.mem.gkHeight = s.mem.gkHeight := by rw [hmem, ← hs1]
+            have hw : s'.mem.wHeight = s.mem.wHeight := by rw [hmem, ← hs1]
+            have ha' : authCheck s' (some u') = .ok (u', { ui with slots := avail }) := by
+              unfold authCheck; simp only [hu1, hgk, hnexp]; rfl
+            have hnt' : s'.db.trackers (loc, u') = none := by
+              rw [← hs', (storeAppointment_spec _ _ _).1]
+              have : s1.db.trackers = s.db.trackers := by
+                rw [← hs1]; simp only; unfold Db.updateUser; split <;> rfl
+              rw [this]
+              cases hx : s.db.trackers (loc, u') with
+              | none => rfl
+              | some _ => simp [hx] at htr
+            have := resubmission_charged_once s' node (some u') loc blob tsd usig u' _ a ha' hnt' hrow (by rw [hblob])
+            rw [this, hw, h1, h3, h4]
+          · cases hch'
+
 /-- `update_user` touches only the `users` table -/
 theorem updateUser_appts (d : Db) (u : User) (i : UserInfo) : (d.updateUser u i).appts = d.appts := by
   unfold Db.updateUser; cases d.users u <;> rfl
